@@ -749,6 +749,10 @@ func c01CheckAccepted(c *mon.Ctx, entry string, p c01Parse, cn *c01Canon, raw []
 	if !c.Try("Tx.Bytes", func() { lb = p.tx.Bytes() }) {
 		return false
 	}
+	if ptx := p.tx; len(lb) < 4096 {
+		c.Retain("transaction parsed by "+entry, func() []byte { return ptx.ExtendedBytes() })
+		c.Retain("Bytes() result", func() []byte { return lb })
+	}
 	if !bytes.Equal(lb, cn.std) {
 		c.Violationf("C01:reserialise-mismatch:"+entry+":"+f+":Bytes", "Bytes() of the value parsed by %s = %s, canonical %s", entry, clip(lb), clip(cn.std))
 		ok = false
@@ -826,6 +830,7 @@ func c01JudgeShape(c *mon.Ctx, s *gen.Shape, tag string) bool {
 			all = false // Bytes() already differed (reported above)
 		} else {
 			c.Count("txid:compared")
+			c.Retain("TxIDBytes() result", func() []byte { return idb })
 		}
 	}
 
